@@ -35,6 +35,8 @@ def match_known_bounded(v, known, pid):
             continue
         pat = kf.get('bounded')
         if pat and re.search(pat, v.get('what', '')):
+            kf = dict(kf)
+            kf['text'] = kf.get('short') or kf['text'][:240]
             return kf
     return None
 
